@@ -23,6 +23,8 @@ package server
 //@ func (*server).listPipelineJobs$1
 //@   safety
 //@   lockmode R
+//@   assumes  [nonnil] j != nil
+//@   ensures  [C15.appended] len(res) == old(len(res)) + 1 && res[len(res)-1].Pipeline == j.Pipeline && res[len(res)-1].Created == j.Created && res[len(res)-1].Canceled == j.Canceled
 
 //@ func jobToResult
 //@   safety
@@ -36,5 +38,5 @@ package server
 //@   loop 1 invariant [copied] forall k :: 0 <= k && k <= $i ==> taskResults[k].Name == j.Tasks[k].Name && taskResults[k].Status == j.Tasks[k].Status && taskResults[k].Start == j.Tasks[k].Start && taskResults[k].End == j.Tasks[k].End && taskResults[k].Skipped == j.Tasks[k].Skipped && taskResults[k].ExitCode == j.Tasks[k].ExitCode && taskResults[k].Errored == j.Tasks[k].Errored
 
 //@ property C08: server.jobToResult/ensures[C08.*] server.jobToResult/loop*
-//@ property C15: server.jobToResult/ensures[C15.*] server.jobToResult/loop* server.*/safety
+//@ property C15: server.(*server).listPipelineJobs$1/ensures[C15.*] server.jobToResult/ensures[C15.*] server.jobToResult/loop* server.*/safety
 //@ property C13: server.*/lock[read] server.*/lock[write] server.*/call-pre[*.lockmode]*
